@@ -123,10 +123,11 @@ func newPackage(program *loader.Program, pkgInfo *loader.PackageInfo, plugins []
 	for _, plugin := range plugins {
 		generators[plugin.Name()] = plugin.New(typesmaps[plugin.Name()], printer, deps)
 	}
-	pkg := &pkg{pkgInfo, plugins, generators, printer, nil, fullpath}
+	pkg := &pkg{pkgInfo, plugins, generators, printer, nil, fullpath, false}
 	for _, fileInfo := range fileInfos {
 
 		changed := false
+		pkg.derived = pkg.derived || len(fileInfo.derived) > 0
 		// Calls are handled in source order, whether or not they already resolve into a previously
 		// generated file, so that the order of the generated functions does not depend on that file.
 		calls := append(append([]*call{}, fileInfo.undefined...), fileInfo.derived...)
@@ -190,6 +191,8 @@ type pkg struct {
 	printer    Printer
 	undefined  []*ast.CallExpr
 	fullpath   string
+	// derived is whether some calls were resolved with the functions of a previously generated file.
+	derived bool
 }
 
 func (pkg *pkg) Add(call *call) (string, error) {
@@ -333,7 +336,10 @@ func (pg *program) generatePackage(pkgInfo *loader.PackageInfo) error {
 		if len(us) == 0 {
 			after, _ := ioutil.ReadFile(pkgGen.Filename())
 			passes++
-			if before == nil || after == nil || bytes.Equal(before, after) || passes >= maxPasses {
+			// The previously generated file might be gone already (it is shared with the external test package),
+			// but its functions were still used to infer types if some calls resolved into it.
+			stable := !pkgGen.derived || (before != nil && bytes.Equal(before, after))
+			if stable || after == nil || passes >= maxPasses {
 				return nil
 			}
 			// The generated file has changed, so the types that were inferred from the previous file might be out of date:
